@@ -951,10 +951,22 @@ def write_if_changed(path, text):
     return True
 
 
+def restore_baseline_files():
+    """write the generated files exactly as they were when the baseline was taken (used when the freshly generated
+    definitions no longer fit the hand-written proofs / driver: the broken obligations are reported, and the model of the
+    last known-good source is what the failing-input search is then run against)"""
+    bpath = os.path.join(HERE, 'baseline.json')
+    files = json.load(open(bpath)).get('__files__', {})
+    for fname, text in files.items():
+        write_if_changed(os.path.join(GEN, fname), text)
+    return bool(files)
+
+
 def main(update_baseline=False):
     os.makedirs(GEN, exist_ok=True)
     bpath = os.path.join(HERE, 'baseline.json')
     baseline = json.load(open(bpath)) if os.path.exists(bpath) else {}
+    baseline.pop('__files__', None)
     status = {}
     units = []
     del EXTRA_UNITS[:]
@@ -965,8 +977,10 @@ def main(update_baseline=False):
             status['unit:' + gen.__name__] = {'ok': False, 'error': repr(ex)}
     changed = write_if_changed(os.path.join(GEN, 'Prelude.lean'), PRELUDE)
     units = units + EXTRA_UNITS
+    files = {'Prelude.lean': PRELUDE}
     for u in units:
         text = u.header + '\n' + '\n\n'.join(t for _k, t in u.items) + '\n\nend Ndt.Gen\n'
+        files[u.fname] = text
         changed |= write_if_changed(os.path.join(GEN, u.fname), text)
     write_if_changed(os.path.join(GEN, 'status.json'), json.dumps(status, indent=1, sort_keys=True))
     if update_baseline:
@@ -979,6 +993,7 @@ def main(update_baseline=False):
                 if m:
                     ret = {v: k2 for k2, v in LT.items()}.get(m.group(1), 'nat')
                 base[k] = {'text': t, 'ret': ret}
+        base['__files__'] = files
         json.dump(base, open(bpath, 'w'), indent=1, sort_keys=True)
     bad = {k: v for k, v in status.items() if not v.get('ok')}
     return status, bad, changed
